@@ -157,8 +157,8 @@ type Opt2 struct {
 
 func named(k string) TypeDesc { return TypeDesc{K: KNamed, Name: k} }
 func leaf(k string) TypeDesc  { return TypeDesc{K: k} }
-func ptr(d TypeDesc) TypeDesc  { return TypeDesc{K: KPtr, Elem: &d} }
-func sl(d TypeDesc) TypeDesc   { return TypeDesc{K: KSlice, Elem: &d} }
+func ptr(d TypeDesc) TypeDesc { return TypeDesc{K: KPtr, Elem: &d} }
+func sl(d TypeDesc) TypeDesc  { return TypeDesc{K: KSlice, Elem: &d} }
 
 func init() {
 	_ = Hidden{}.hidden
